@@ -285,6 +285,45 @@ func runRows(e *core.Env, prop string) error {
 	if err != nil {
 		return err
 	}
+	if prop == "C13" {
+		// groups of declarations (often with the SAME event name and a different input list, as for two
+		// versions of a contract) stored in the database together and loaded back
+		for g0, gi := 0, 0; g0+1 < len(evs) && gi < e.N(12, 120); gi++ {
+			n := 2 + r.Intn(3)
+			var group []dbDecl
+			shared := core.Pick(r, []string{"Transfer", "Deposit"})
+			for k := 0; k < n && g0 < len(evs); k, g0 = k+1, g0+1 {
+				ec := evs[g0]
+				name := ec.name
+				if gi%2 == 0 {
+					name = shared
+				}
+				var parts []string
+				nIdx := 0
+				for _, in := range ec.inputs {
+					parts = append(parts, in.canon())
+					if in.indexed {
+						nIdx++
+					}
+				}
+				group = append(group, dbDecl{name: fmt.Sprintf("dbig%d", k), event: eventOf(name, ec.inputs), canon: name + "(" + strings.Join(parts, ",") + ")", nIndex: nIdx})
+			}
+			dbDeclRoundTrip(e, group, fmt.Sprintf("c13-db %d", gi))
+		}
+		// the classic pair: ERC-20 and ERC-721 Transfer (same name, same types, another indexed layout)
+		addr := func(n string, idx bool) dig.Input { return dig.Input{Name: n, Type: "address", Indexed: idx} }
+		erc20 := dig.Event{Name: "Transfer", Type: "event", Inputs: []dig.Input{addr("from", true), addr("to", true), {Name: "value", Type: "uint256"}}}
+		erc721 := dig.Event{Name: "Transfer", Type: "event", Inputs: []dig.Input{addr("from", true), addr("to", true), {Name: "tokenId", Type: "uint256", Indexed: true}}}
+		four := dig.Event{Name: "Transfer", Type: "event", Inputs: []dig.Input{addr("operator", true), addr("from", true), addr("to", true), {Name: "id", Type: "uint256"}, {Name: "value", Type: "uint256"}}}
+		for pi, perm := range [][]int{{0, 1}, {1, 0}, {2, 0, 1}, {0, 2, 1}, {1, 0, 2}} {
+			all := []dbDecl{{"erc20", erc20, "Transfer(address,address,uint256)", 2}, {"erc721", erc721, "Transfer(address,address,uint256)", 3}, {"multi", four, "Transfer(address,address,address,uint256,uint256)", 3}}
+			var group []dbDecl
+			for _, k := range perm {
+				group = append(group, all[k])
+			}
+			dbDeclRoundTrip(e, group, fmt.Sprintf("c13-db-transfer %d", pi))
+		}
+	}
 	var prevRerun func() string
 	var prevImpl, prevKey string
 	for ei, ec := range evs {
